@@ -1,6 +1,6 @@
 """Extras: behaviour specified beyond the 20 listed properties (not in MANIFEST.checks).
    X01 string helpers (StrUtil.tla)   X02 GetClientIP (ClientIP.tla)   X03 FirstIP/LastIP (IpRange.tla)
-   X04 Nano handler line format (NanoLine.tla, scenarios from JsonLineMC)"""
+   X04 Nano handler line format (NanoLine.tla, scenarios from JsonLineMC)   X05 ResponseWriter / reply helpers (HttpHelpers.tla)"""
 import json
 import vlib
 from vlib import judge
@@ -30,6 +30,11 @@ def run(ctx, which):
         rows = vlib.read_ndjson(out)
         bad, _, _ = judge(ctx, "netutil", "IpRange", rows, nshards=1, workers=2, timeout=600)
         what = lambda c: "FirstIP/LastIP of %s/%d" % (c["ip"], c["len"])
+    elif which == "X05":
+        ctx.run([hb, "-mode", "helpers", "-out", out], timeout=300)
+        rows = vlib.read_ndjson(out)
+        bad, _, _ = judge(ctx, "httpd", "HttpHelpers", rows, nshards=1, workers=4, timeout=600)
+        what = lambda c: "calls %s: Status=%d, client status %d" % ([(x["h"], x["code"]) for x in c["calls"]], c["status"], c["wire"])
     else:
         g = ctx.tlc("logger", "JsonLineMC", p_c01.mc_cfg(2, 1, export=True), workers=8, timeout=1800, xmx="8g", tag="scenarios (chains x forests)")
         scen = [j for j in g.json if isinstance(j, dict) and "chain" in j]
